@@ -280,6 +280,137 @@ func init() {
 
 	// pool.stress <workers> <ticks> <maxJobs> <rounds> — hook-free: fast ticks against many workers with
 	// instantaneous bodies, all ticks issued before cancel; requested must equal started + dropped.
+	// pool.race <workers> <a> <b> <rounds> — a tick of b requests races with the pool's shutdown while a requests
+	// are out (min(a, workers) of them executing, the rest pending). Whatever the interleaving, every request of
+	// the first tick is started or dropped, and the racing tick is either refused whole or all of it is dropped or
+	// started: started + dropped is a or a+b. Bodies are gated and released after the race. Three flavours, by round:
+	//  0 free race of Trigger(b) against cancel();
+	//  1 the tick is held at pool.trigger.accepted (past its context check) until the stop flag is up, then races
+	//    stop()'s drain for the pool lock;
+	//  2 the tick is accepted first; the workers it wakes are held at pool.worker.pretake until the stop flag is
+	//    up, then race the drain for the pending requests.
+	register("pool.race", func(a []string) string {
+		w, na, nb, rounds := atoi(a[0]), atoi(a[1]), atoi(a[2]), atoi(a[3])
+		bad, firstBad := 0, ""
+		refused, acceptedB := 0, 0
+		var mode atomic.Int32
+		var armed, tickParked atomic.Bool
+		var cur atomic.Pointer[poolRig]
+		spinUntilStopped := func(max time.Duration) {
+			r := cur.Load()
+			dl := time.Now().Add(max)
+			for !r.pool.VerifStopped() && time.Now().Before(dl) {
+			}
+		}
+		verifhook.Set(func(point string) {
+			if !armed.Load() {
+				return
+			}
+			switch {
+			case point == "pool.trigger.accepted" && mode.Load() == 1:
+				tickParked.Store(true)
+				spinUntilStopped(3 * time.Millisecond)
+			case point == "pool.worker.pretake" && mode.Load() == 2:
+				spinUntilStopped(2 * time.Millisecond)
+			}
+		})
+		defer verifhook.Set(nil)
+		for rd := 0; rd < rounds; rd++ {
+			armed.Store(false)
+			tickParked.Store(false)
+			mode.Store(int32(rd % 3))
+			r := newPoolRig(w, 0, true)
+			cur.Store(r)
+			if na > 0 {
+				r.pool.Trigger(r.workerCtx, na)
+				for i := 0; i < 4000 && r.started.Load() < int64(min(na, w)); i++ {
+					time.Sleep(50 * time.Microsecond)
+				}
+			}
+			x := uint32(rd)*2654435761 + 12345
+			x ^= x >> 13
+			spin := func(n uint32) {
+				var v atomic.Int64
+				for i := uint32(0); i < n; i++ {
+					v.Add(1)
+				}
+			}
+			armed.Store(true)
+			switch mode.Load() {
+			case 0:
+				var wg sync.WaitGroup
+				start := make(chan struct{})
+				wg.Add(2)
+				go func() { defer wg.Done(); <-start; spin(x % 197); r.pool.Trigger(r.workerCtx, nb) }()
+				go func() { defer wg.Done(); <-start; spin((x >> 8) % 197); r.cancel() }()
+				close(start)
+				wg.Wait()
+			case 1:
+				done := make(chan struct{})
+				go func() { r.pool.Trigger(r.workerCtx, nb); close(done) }()
+				for i := 0; i < 100000 && !tickParked.Load(); i++ {
+					spin(20)
+				}
+				r.cancel()
+				<-done
+			case 2:
+				r.pool.Trigger(r.workerCtx, nb)
+				spin(x % 97)
+				r.cancel()
+			}
+			for i := 0; i < 4000 && !r.pool.VerifStopped(); i++ {
+				time.Sleep(50 * time.Microsecond)
+			}
+			armed.Store(false)
+			for i := 0; i < na+nb+w; i++ {
+				r.gate <- struct{}{}
+			}
+			done := true
+			select {
+			case <-r.manager.WaitForCompletion():
+			case <-time.After(5 * time.Second):
+				done = false
+			}
+			// the drain records its drops one by one after the workers have gone: wait for a valid, stable total
+			var tot progress.Snapshot
+			var sum int64
+			stable := 0
+			for i := 0; i < 1500 && stable < 4; i++ {
+				time.Sleep(200 * time.Microsecond)
+				tot = r.stats.Total()
+				s2 := r.started.Load() + int64(tot.DroppedIterationCount)
+				if s2 == sum && (s2 == int64(na) || s2 == int64(na+nb)) {
+					stable++
+				} else {
+					stable = 0
+				}
+				sum = s2
+			}
+			switch {
+			case !done:
+				bad++
+				if firstBad == "" {
+					firstBad = "workers-never-finished"
+				}
+			case sum == int64(na):
+				refused++
+			case sum == int64(na+nb):
+				acceptedB++
+			default:
+				bad++
+				if firstBad == "" {
+					firstBad = fmt.Sprintf("flavour%d/started=%d/dropped=%d/of=%d+%d", rd%3, r.started.Load(), tot.DroppedIterationCount, na, nb)
+				}
+			}
+			if bad >= 3 {
+				break
+			}
+		}
+		if firstBad == "" {
+			firstBad = "-"
+		}
+		return fmt.Sprintf("diff=%d rounds=%d refused=%d accepted=%d first=%s", bad, rounds, refused, acceptedB, firstBad)
+	})
 	register("pool.stress", func(a []string) string {
 		w, ticks, maxn, rounds := atoi(a[0]), atoi(a[1]), atoi(a[2]), atoi(a[3])
 		for rd := 0; rd < rounds; rd++ {
